@@ -616,7 +616,7 @@ def check_C19(ctx):
 
 def check_C14(ctx):
     return run_leaf_property(ctx, dict(
-        theorems=["C14_dur_enc", "C14_dur_fits", "C14_dur_sat", "C14_dur_rt", "C14_ts_norm", "C14_ts_rt"],
+        theorems=["C14_dur_enc", "C14_dur_fits", "C14_dur_sat", "C14_dur_rt", "C14_ts_norm", "C14_ts_rt", "C14_zero_time_absent", "C14_time_bytes", "C14_duration_bytes"],
         suites=lambda c: [("conv", ["conv", c.seed, _n(c, 1500, 100000)])],
         trusted=["modelled, not verified: Go time.Unix/Unix()/Nanosecond()/IsZero()/UTC() (from the Go standard library source), int64 wrap-around of time.Duration arithmetic"],
         rule="(seconds,nanos) plane on a boundary grid (+-floor(MaxInt64/10^9)+-1, 0, +-1, int32/int64 extremes, mixed signs) x random; durations and instants (each instant in UTC, Local or a fixed zone; the zero instant in all three); "
